@@ -307,11 +307,28 @@ def run(prog, rep, tier):
                 ko = rr[1].args[1]
                 if 2 in mo.params and ko.place is not None and payload_src(body, ko.place[0], 'FileStart', 'filename'):
                     guard = (bl.idx, rr[2])
+        gkv = None
+        if guard is None:
+            # `if let Some((name, _)) = export.get_key_value(&filename)`: the Some arm of a lookup of the block's name in the export map
+            for sbb2, si2 in arm_of_enum_switch(prog, body, adt='std::option::Option'):
+                o2 = origins(body, [si2['place'][0]])
+                for c2 in o2.calls:
+                    t2 = body.blocks[c2].term
+                    if t2.cmethod in ('get_key_value', 'get', 'get_mut') and 'HashMap' in t2.cdef and len(t2.args) == 2 and t2.args[0].place is not None and t2.args[1].place is not None and \
+                            2 in origins(body, [t2.args[0].place[0]], through_calls=False).params and payload_src(body, t2.args[1].place[0], 'FileStart', 'filename'):
+                        st2 = enum_arm_target(si2, 'Some')
+                        if st2 is not None and st2 != enum_arm_target(si2, 'None') and gkv is None and body.edge_dominates((sbb2, st2), b.idx) and \
+                                si2['place'][0] == t2.dest[0]:
+                            guard = (sbb2, st2)
+                            gkv = c2
         okg = guard is not None and body.edge_dominates(guard, b.idx) and b.idx in in_fs
         okid = b.term.args[1].place is not None and payload_src(body, b.term.args[1].place[0], 'FileStart', 'id')
         vo = b.term.args[2]
         okv = vo.place is not None and must_derive(body, vo.place[0], lambda k, ob, b3: k == 'assign' and ob.rv.r == 'use' and ob.rv.ops[0].place is not None and
                                                    [p[2] for p in ob.rv.ops[0].place[1] if p[0] == 'f'] == ['filename'], extra_transparent=('clone',))
+        if not okv and gkv is not None and vo.place is not None:
+            # the registered name is the key the lookup returned (equal to the block's name)
+            okv = must_derive(body, vo.place[0], lambda k, ob, b3: k == 'call' and b3 == gkv)
         rep.ob('R12.4', bool(okg and okid and okv), 'R12.4|%s|register-only-chosen' % body.nkey,
                'name registered under its own id only on the true edge of export.contains_key(filename)' if (okg and okid and okv) else
                'registration of a file is not guarded by export.contains_key(filename) / not keyed by its own id (guard=%s id=%s name=%s)' % (okg, okid, okv), body.loc(b.idx))
